@@ -889,7 +889,7 @@ func (p *ProjectRunner) selectRunningProcessesNoDeps(procList []string) error {
 	for name, proc := range p.project.Processes {
 		found := false
 		for _, procName := range procList {
-			if proc.Name == procName {
+			if proc.Name == procName || proc.ReplicaName == procName {
 				found = true
 				break
 			}
